@@ -11,7 +11,7 @@ package zlib
 
 //@ pure zwBase(z *Writer) bool = z.w != nil && (z.err == nil ==> !dstFailed(z.w)) && -2 <= z.level && z.level <= 9 && (z.compressor != nil ==> wOK(z.compressor) && z.digest != nil) && (z.wroteHeader && z.err == nil ==> z.compressor != nil) && (!z.wroteHeader && z.compressor != nil ==> !wClosed(z.compressor) && !wStuck(z.compressor)) && (z.err != nil ==> z.wroteHeader) && (z.closed ==> z.wroteHeader)
 //@ pure zwOK(z *Writer) bool = zwBase(z) && (z.err == nil && z.wroteHeader ==> (z.closed == wClosed(z.compressor)) && (!z.closed ==> !wStuck(z.compressor)))
-//@ pure zwFresh(z *Writer) bool = zwOK(z) && !z.wroteHeader && !z.closed && z.err == nil && (z.compressor != nil ==> !wClosed(z.compressor) && !wStuck(z.compressor) && (z.compressor.lc != nil ==> lcFresh(z.compressor.lc)))
+//@ pure zwFresh(z *Writer) bool = zwOK(z) && !z.wroteHeader && !z.closed && z.err == nil && (z.compressor != nil ==> !wClosed(z.compressor) && !wStuck(z.compressor) && (z.compressor.lc != nil ==> lcFresh(z.compressor.lc))) && (z.digest != nil ==> !hashDirty(z.digest))
 
 //@ func NewWriterLevelDict
 //@   requires w != nil && !dstFailed(w)
@@ -22,7 +22,7 @@ package zlib
 
 //@ func (*Writer).Reset
 //@   requires w != nil && !dstFailed(w) && -2 <= z.level && z.level <= 9 && (z.compressor != nil ==> wShape(z.compressor) && z.digest != nil)
-//@   modifies *z, **z.compressor
+//@   modifies **z.digest, *z, **z.compressor
 //@   ensures[C12 C16 fresh] zwFresh(z) && same(z.level) && z.w == w && same(z.compressor) && same(z.dict)
 
 //@ func (*Writer).writeHeader
@@ -37,7 +37,7 @@ package zlib
 
 //@ func (*Writer).Write
 //@   requires zwOK(z)
-//@   modifies *z, **z.compressor, **z.w, extWrites, lastWriteErr
+//@   modifies **z.digest, *z, **z.compressor, **z.w, extWrites, lastWriteErr
 //@   ensures[C16 inv] zwOK(z)
 //@   ensures[C14 C16 sticky-in] old(z.err) != nil ==> n == 0 && err == old(z.err) && extWrites == old(extWrites) && same(z.err)
 //@   ensures[C14 sticky-out] err != nil ==> z.err == err
@@ -81,7 +81,7 @@ package zlib
 //@ func (*reader).Read
 //@   params z, p -> n, err
 //@   requires zrBase(z)
-//@   modifies z.err, z.scratch, **z.decompressor, **z.r, p[*], extReads, peekErr, lastReadN, lastReadErr, rfErr, rfN, lastSum32
+//@   modifies **z.digest, z.err, z.scratch, **z.decompressor, **z.r, p[*], extReads, peekErr, lastReadN, lastReadErr, rfErr, rfN, lastSum32
 //@   ensures[C07 inv] zrBase(z)
 //@   ensures[C07 C15 sticky] old(z.err) != nil ==> n == 0 && err == old(z.err) && extReads == old(extReads)
 //@   ensures[C07 C15 err-recorded] err != nil && err != io.EOF ==> z.err == err
